@@ -223,6 +223,7 @@ def Ev.toQ : Ev → QEv
   | .start n r => .start n r
   | .stop n => .stop n
   | .text raw => .text raw
+  | .cdata c => .cdata c
   | .bad => .err
 
 def Ev.isTextB : Ev → Bool
@@ -241,6 +242,7 @@ def WN : List Bytes → List Ev → Prop
   | st, .start n r :: t => goodName n = true ∧ GoodRest r ∧ WN (n :: st) t
   | st, .stop n :: t => goodName n = true ∧ (∃ st', st = n :: st' ∧ WN st' t)
   | st, .text raw :: t => raw ≠ [] ∧ (∀ c ∈ raw, c ≠ cLt) ∧ headNotText t = true ∧ WN st t
+  | _, .cdata _ :: _ => False     -- the serialiser never writes a CDATA section
   | _, .bad :: _ => False
 
 theorem write_cons (e : Ev) (t : List Ev) : write (e :: t) = writeEv e ++ write t := by simp [write]
@@ -260,6 +262,7 @@ theorem tokLoop_tag (k : Nat) (raw : Bytes) (hraw : ∀ c ∈ raw, c ≠ cLt) (e
   cases e with
   | text _ => simp [Ev.isTextB] at he
   | bad => simp [WN] at hwn
+  | cdata _ => simp [WN] at hwn
   | start n r =>
     simp only [WN] at hwn
     refine ⟨hwn.2.2, ?_⟩
@@ -287,6 +290,7 @@ theorem writeEv_length_pos (e : Ev) (st : List Bytes) (t : List Ev) (h : WN st (
     simp only [WN] at h
     simp only [writeEv]
     exact List.length_pos_iff.mpr h.1
+  | cdata _ => simp [WN] at h
   | bad => simp [WN] at h
 
 /-- **the tokeniser reads back what the writer wrote** -/
@@ -313,6 +317,7 @@ theorem tokLoop_write : ∀ (evs : List Ev) (st : List Bytes) (fuel : Nat), WN s
         | start _ _ => simp [Ev.isTextB] at hte
         | stop _ => simp [Ev.isTextB] at hte
         | bad => simp [Ev.isTextB] at hte
+        | cdata _ => simp [Ev.isTextB] at hte
         | text raw =>
           simp only [WN] at hwn
           obtain ⟨hne, hraw, hhead, hwt⟩ := hwn
@@ -348,6 +353,7 @@ theorem deEvents_toQ : ∀ (evs : List Ev) (st : List Bytes), WN st evs → deEv
   | .text raw :: t, st, h => by
     simp only [WN] at h
     simp [Ev.toQ, deEvents, deEvents_toQ t _ h.2.2.2]
+  | .cdata _ :: _, _, h => by simp [WN] at h
   | .bad :: _, _, h => by simp [WN] at h
 
 /-- a written document does not start with a byte-order mark -/
@@ -356,6 +362,7 @@ theorem stripBom_write (e : Ev) (t : List Ev) (st : List Bytes) (he : e.isTextB 
   cases e with
   | text _ => simp [Ev.isTextB] at he
   | bad => simp [WN] at h
+  | cdata _ => simp [WN] at h
   | start n r => simp [write_cons, writeEv, stripBom, cLt]
   | stop n => simp [write_cons, writeEv, stripBom, cLt]
 
